@@ -2,6 +2,7 @@ import FractopoModel.Model.Snap
 import FractopoModel.Lemmas.SnapLoop
 import FractopoModel.Generated.SnapInsert
 import FractopoModel.Lemmas.SnapDriver
+import FractopoModel.Lemmas.InsertPoint
 import FractopoModel.Generated.Windows
 import FractopoModel.Generated.DegreeToClass
 import FractopoModel.Props.C05
@@ -181,5 +182,61 @@ example :
 
 example : apply [1, 2, 3, 4] 9 (choose 4 1 false false) = [1, 2, 9, 3, 4] ∧ apply [1, 2, 3, 4] 9 (choose 4 1 true true) = [1, 2, 9, 4] ∧
     apply [1, 2, 3, 4] 9 (choose 4 2 true true) = [1, 2, 3, 9, 4] := by decide
+
+/-! ### regenerated vertex insertion -/
+
+theorem segs_eq_range (l : Polyline) (d : Pt) :
+    segs l = (List.range (l.length - 1)).map fun i => (l.getD i d, l.getD (i + 1) d) := by
+  unfold segs
+  apply List.ext_getElem
+  · simp
+  · intro i h1 h2
+    have hi : i < l.length - 1 := by simpa using h2
+    simp only [List.getElem_zip, List.getElem_tail, List.getElem_map, List.getElem_range]
+    rw [List.getD_eq_getElem?_getD, List.getD_eq_getElem?_getD, List.getElem?_eq_getElem (by omega), List.getElem?_eq_getElem (by omega)]
+    rfl
+
+/-- **The regenerated `insert_point_to_linestring` IS the insertion model.** With exact squared distances for the distance
+parameters (the threshold squared accordingly; ordering by squared distance = ordering by distance), the regenerated function --
+coincidence guard, distance table, stable sort, first-minimum segment, restriction to the ends of that segment, regenerated
+`determine_insert_approach`, `pop` / `insert` -- equals `Snap.insertGeo` for every polyline with at least two vertices, every
+point, every threshold. `C06_insert_between`, `C06_decision`, `C06_replace` and the snapping-loop theorems therefore speak about
+regenerated code. The angle comparison of the middle branch is irrelevant (its result is overwritten by the caller). -/
+theorem C06_generated_insert_point (l : Polyline) (p : Pt) (t : Rat) (angle : Pt → Pt → Pt → Rat) (h2 : 2 ≤ l.length) :
+    Gen.insert_point_to_linestring (fun c q => Pt.dist2 q c) (fun a b => a == b) angle (fun a b q => ptSegDist2 q a b) l p (t * t)
+      = Snap.insertGeo l p t := by
+  by_cases hc : l.contains p = true
+  · have hg : (List.any (List.map (fun xy => p == xy) l) id) = true := by
+      rw [List.any_eq_true]
+      have hm : p ∈ l := by simpa using hc
+      exact ⟨true, List.mem_map.mpr ⟨p, hm, by simp⟩, rfl⟩
+    unfold Gen.insert_point_to_linestring Snap.insertGeo
+    simp only [hg, hc, if_true]
+  · have hnm : p ∉ l := by simpa using hc
+    have hs : ∀ c ∈ l, (p == c) = false ∧ (c == p) = false := by
+      intro c hcm
+      have hne : p ≠ c := fun h => hnm (h ▸ hcm)
+      exact ⟨by simpa using hne, by simpa using fun h : c = p => hne h.symm⟩
+    rw [InsertPt.generated_insert (fun c q => Pt.dist2 q c) (fun a b => a == b) angle (fun a b q => ptSegDist2 q a b) l p (t * t) h2 hs]
+    unfold Snap.insertGeo
+    simp only [hc, Bool.false_eq_true, if_false]
+    rw [segs_eq_range l p]
+    simp only [List.map_map, Function.comp_def]
+    -- the two ends of the closest segment, read with either default
+    generalize hj : Snap.argminIdx (List.map (fun i => ptSegDist2 p (l.getD i p) (l.getD (i + 1) p)) (List.range (l.length - 1))) = j
+    have hjlt : j < l.length - 1 := by
+      rw [← hj]
+      have := InsertPt.argminIdx_lt (List.map (fun i => ptSegDist2 p (l.getD i p) (l.getD (i + 1) p)) (List.range (l.length - 1)))
+        (by intro h; have := congrArg List.length h; simp at this; omega)
+      simpa using this
+    have e1 : l.getD j default = l.getD j p := by
+      rw [List.getD_eq_getElem?_getD, List.getD_eq_getElem?_getD, List.getElem?_eq_getElem (by omega)]; rfl
+    have e2 : l.getD (j + 1) default = l.getD (j + 1) p := by
+      rw [List.getD_eq_getElem?_getD, List.getD_eq_getElem?_getD, List.getElem?_eq_getElem (by omega)]; rfl
+    simp only [e1, e2]
+
+/-- non-vacuity: the doctest of `insert_point_to_linestring` through the regenerated code -/
+example : Gen.insert_point_to_linestring (fun c q => Pt.dist2 q c) (fun a b => a == b) (fun _ _ _ => 0) (fun a b q => ptSegDist2 q a b)
+    [⟨0, 0⟩, ⟨1, 0⟩, ⟨2, 0⟩, ⟨3, 0⟩] ⟨5 / 4, 1 / 10⟩ ((1 / 100) * (1 / 100)) = [⟨0, 0⟩, ⟨1, 0⟩, ⟨5 / 4, 1 / 10⟩, ⟨2, 0⟩, ⟨3, 0⟩] := by decide +kernel
 
 end C06
